@@ -237,6 +237,11 @@ func c06Cases(thorough bool) []c06Case {
 			cs = append(cs, c06Case{Kind: "discon", Target: t, Option: o})
 		}
 	}
+	for _, o := range options {
+		for _, t := range [][8]byte{{}, world.Bits(ref.PReadChat), allBut(ref.PCannotBeDiscon)} {
+			cs = append(cs, c06Case{Kind: "livegrant", Target: t, Option: o})
+		}
+	}
 	return cs
 }
 
@@ -249,7 +254,73 @@ func missing(b [8]byte) int {
 	return -1
 }
 
+// c06LiveGrant: the cannot-be-disconnected privilege is granted to an account while two sessions of
+// it are connected; afterwards neither session can be disconnected or banned, whatever the option.
+func c06LiveGrant(w *explore.Worker, c c06Case) {
+	fail := func(clause, detail string) {
+		w.Violation("C06/discon-live-grant/"+clause, fmt.Sprintf("option %x: %s", c.Option, detail), 1, c)
+	}
+	seqChecked(w, "C06", "livegrant", c, func() {
+		wd := world.New(world.Cfg{Accounts: []world.Acct{
+			{Login: "guest", Name: "Guest", Access: world.Bits(ref.PReadChat)},
+			{Login: "admin", Name: "Admin", Password: "pw", Access: world.Without(world.AllAccess, ref.PCannotBeDiscon)},
+			{Login: "target", Name: "Target", Password: "tp", Access: c.Target},
+		}})
+		defer wd.Close()
+		adm, r1 := wd.Connect("10.0.0.1:1001", "admin", "pw", "adm")
+		t1, r2 := wd.Connect("10.0.0.8:1008", "target", "tp", "Target")
+		t2, r3 := wd.Connect("10.0.0.9:1009", "target", "tp", "Target")
+		if r1 == nil || r2 == nil || r3 == nil || r1.Err != 0 || r2.Err != 0 || r3.Err != 0 {
+			w.Broken("C06 livegrant: logins failed")
+			return
+		}
+		var tids []uint16
+		for _, u := range wd.UserList(adm) {
+			if u.Name == "Target" {
+				tids = append(tids, u.ID)
+			}
+		}
+		if len(tids) != 2 {
+			w.Broken("C06 livegrant: expected two target sessions, list %v", wd.UserList(adm))
+			return
+		}
+		prot := c.Target
+		prot[ref.PCannotBeDiscon/8] |= 0x80 >> uint(ref.PCannotBeDiscon%8)
+		sid := adm.Req(ref.TSetUser, ref.F(ref.FUserLogin, obf("target")), ref.FS(ref.FUserName, "Target"), ref.F(ref.FUserPassword, []byte{0}), ref.F(ref.FUserAccess, prot[:]))
+		world.Quiet()
+		if r := adm.Reply(sid); r == nil || r.Err != 0 {
+			fail("set-user-refused", fmt.Sprint(r))
+			return
+		}
+		for i, tid := range tids {
+			fields := []ref.Fld{ref.F16(ref.FUserID, tid)}
+			if c.Option != nil {
+				fields = append(fields, ref.F(ref.FOptions, c.Option))
+			}
+			id := adm.Req(ref.TDisconnectUser, fields...)
+			world.Settle(10 * time.Second)
+			rep := adm.Reply(id)
+			if rep == nil || rep.Err == 0 {
+				fail("protected-session-request-not-refused", fmt.Sprintf("session %d (id %d): %v", i+1, tid, rep))
+			}
+		}
+		if t1.Conn.Closed || t2.Conn.Closed {
+			fail("protected-session-disconnected", fmt.Sprintf("closed: %v %v", t1.Conn.Closed, t2.Conn.Closed))
+		}
+		for _, ip := range []string{"10.0.0.8", "10.0.0.9"} {
+			if b, _ := wd.Srv.BanList.IsBanned(ip); b {
+				fail("protected-session-banned", ip)
+			}
+		}
+		w.Outcome(fmt.Sprintf("livegrant %x closed=%v/%v", c.Option, t1.Conn.Closed, t2.Conn.Closed))
+	})
+}
+
 func c06Run(w *explore.Worker, c c06Case) {
+	if c.Kind == "livegrant" {
+		c06LiveGrant(w, c)
+		return
+	}
 	if c.Kind == "create" {
 		c06Create(w, c)
 	} else {
